@@ -14,6 +14,8 @@ def c01(chk, tier):
                          "the constants extracted from the running code")
     p_halflock.run_halflock(chk, tier)
     p_registry.run_registry(chk, tier)
+    stall(chk, tier)
+    step(chk, tier)
 
 
 def c02(chk, tier):
@@ -21,6 +23,53 @@ def c02(chk, tier):
                          "the mutating thread) of small registry scenarios; a case is one schedule, distinct = "
                          "distinct abstract event traces; oracle = TraceRegistryAbs.tla via TLC")
     p_registry.run_registry(chk, tier)
+    if chk.pid in ("C01", "C02", "C18"):
+        stall(chk, tier)
+    if chk.pid in STEP_OPS:
+        step(chk, tier)
+
+
+STEP_OPS = {
+    "C03": "register_other,register_same,unregister,signals_pending,raw_pending,add_signal,emulate_first,drop_signals,unregister_signal_other",
+    "C01": "unregister,drop_signals,unregister_signal_other",
+    "C02": "register_other,register_same,unregister,drop_signals",
+    "C09": "signals_pending,add_signal", "C10": "signals_pending,raw_pending",
+    "C13": "register_same,signals_pending", "C15": "emulate_first,register_same",
+}
+
+
+def step(chk, tier):
+    """A real (kernel-delivered) signal at every instruction boundary of library operations, nested on
+    the interrupted thread (x86 trap flag + fork per boundary); judged by TraceStep.tla."""
+    import os
+    import platform
+    if platform.machine() != "x86_64":
+        chk.note("instruction-boundary deliveries need x86-64 (trap flag); skipped on %s" % platform.machine())
+        return
+    out = os.path.join(p_probes.WORK, "probe_%s_step.ndjson" % chk.pid)
+    args = ["--ops", STEP_OPS[chk.pid], "--all"]
+    recs = p_probes.run_probe("step", args, out)
+    for r in recs:
+        chk.evaluations += r["r"].get("forks", 0)
+        chk.traces += r["r"].get("forks", 0)
+        chk.distinct += 1
+    chk.sample({"instruction_boundary_deliveries": [
+        {"op": r["op"], "boundaries": r["r"].get("nsteps"), "deliveries": r["r"].get("forks"),
+         "verdicts": r["r"].get("steps")} for r in recs]})
+    found = p_probes.validate_records(chk, "TraceStep.tla", out, "V_" + chk.pid, "step", extra_inv=["V_Env"])
+    p_probes.report(chk, found, "step", args, env_inv="V_Env")
+
+
+def stall(chk, tier):
+    """A delivery stalled (real time, native speed) inside an earlier action while another thread
+    removes a later one: the removed action must not start after the removal returned."""
+    import os
+    out = os.path.join(p_probes.WORK, "probe_%s_stall.ndjson" % chk.pid)
+    args = ["--hold-ms", 3000 if tier == "thorough" else 700]
+    recs = p_probes.run_probe("stall", args, out)
+    p_probes.count(chk, recs, lambda r: (r["kind"], r["status"], r["r"].get("early"), r["r"].get("late")))
+    found = p_probes.validate_records(chk, "TraceStall.tla", out, "V_" + chk.pid, "stall")
+    p_probes.report(chk, found, "stall", args)
 
 
 def c05(chk, tier):
@@ -29,10 +78,11 @@ def c05(chk, tier):
     # closed-form model RegistrySeq.tla
     import itertools
     import os
-    hist = ["S10", "S10,R10,D10", "S10,S12,R12,D12,S12,D12", "R10,U1,U1,S10,D10", "R10,R10,S10,S10,R10,D10",
+    hist = ["H10,R10,D10,Q10,D10,Q10,U1,Q10,D10,Q10", "G12,Q12,R12,Q12,D12,S12,Q12,D12,Q12", "Q10,R10,Q10,S10,Q10,Q12",
+            "S10", "S10,R10,D10", "S10,S12,R12,D12,S12,D12", "R10,U1,U1,S10,D10", "R10,R10,S10,S10,R10,D10",
             "U1", "R10,R12,U2,D12,D10,S10,D10", "R12,R10,R12,U1,D12,U3,D12,S12,D12"]
     if tier == "thorough":
-        alphabet = ["R10", "R12", "U1", "U2", "S10", "D10", "D12"]
+        alphabet = ["R10", "R12", "U1", "U2", "S10", "D10", "D12", "H10", "Q10"]
         hist += [",".join(p) for n in (2, 3, 4) for p in itertools.product(alphabet, repeat=n)][:1500]
     out = os.path.join(p_probes.WORK, "probe_C05.ndjson")
     args = ["--histories", ";".join(hist)]
@@ -61,6 +111,7 @@ def c18(chk, tier):
     chk.extra["rule"] = "as C01, plus liveness (FairSpec) on the fine model and livelock/deadlock events on real schedules"
     p_halflock.run_halflock(chk, tier, want_liveness=True)
     p_registry.run_registry(chk, tier)
+    stall(chk, tier)
 
 
 def c06(chk, tier):
@@ -80,6 +131,8 @@ def c09(chk, tier):
                          "histories in forked children validated against the monitor of AsyncOps.tla")
     p_iterator.run_iterator(chk, tier)
     p_async.run_async(chk, tier)
+    if chk.pid in STEP_OPS:
+        step(chk, tier)
 
 
 CHECKS = {"C12": p_probes.c12, "C13": p_probes.c13, "C14": p_probes.c14, "C15": p_probes.c15,
